@@ -316,9 +316,22 @@ def standard_check(cfg, tier, seed, replay=None):
                     if rc != 0:
                         proof_problems.append("leanchecker rejected %s: %s" % (t, out[-400:]))
                 R.coverage["leanchecker"] = "ran on " + ",".join(thm_targets)
-        dok, dout = lake_build([cfg.get("driver", "drv_" + prop.lower())])
+        drv_name = cfg.get("driver", "drv_" + prop.lower())
+        dok, dout = lake_build([drv_name])
+        drv_usable = True
         if not dok:
-            raise RuntimeError("driver build failed:\n" + dout[-3000:])
+            # The driver imports regenerated modules for some properties.  When a translator rejected the
+            # CURRENT source (changed shape) the driver cannot be rebuilt: that is a broken tie, not a
+            # broken check.  Search for a failing input with the last driver that did build, if any.
+            if os.path.exists(os.path.join(LEAN, ".lake/build/bin", drv_name)) and (proof_problems or "Sky/Gen/" in dout or "Sky.Gen." in dout):
+                proof_problems.append("driver %s could not be rebuilt against the regenerated model (using the last built driver for the search): %s"
+                                      % (drv_name, " | ".join(l for l in dout.splitlines() if "error" in l)[:600]))
+            elif proof_problems or "Sky/Gen/" in dout or "Sky.Gen." in dout:
+                proof_problems.append("driver %s could not be built against the regenerated model: %s"
+                                      % (drv_name, " | ".join(l for l in dout.splitlines() if "error" in l)[:600]))
+                drv_usable = False
+            else:
+                raise RuntimeError("driver build failed:\n" + dout[-3000:])
     R.coverage["checker_cmd"] = "cd lean && lake build %s && lake env lean .audit/Audit%s.lean  (#print axioms)" % (" ".join(thm_targets), prop)
     R.coverage["trusted_base"] = cfg.get("trusted_base", [])
     R.coverage["theorems"] = [t.split(".")[-1] for t in theorems]
@@ -330,6 +343,13 @@ def standard_check(cfg, tier, seed, replay=None):
     if replay:
         rp = json.load(open(replay))
         replay_ops = "\n".join(rp.get("ops", [])) + "\n"
+    if not drv_usable:
+        payload = {"proof_problems": proof_problems, "ops": [],
+                   "note": "the model could not be regenerated from the current source and no driver is available to search for a failing input"}
+        path = R.write_replay("unproved", payload)
+        R.violations.append(("unproved", path, "no-failing-input-found"))
+        R.coverage.update(evaluations=0, distinct_nontrivial=0, rule="no correspondence run: driver unavailable", samples=[])
+        return R.finish()
     lines, diffs = run_correspondence(cfg, tier, seed, replay_ops)
     known = load_known(prop)
     dist = distribution(lines, cfg.get("dist_key"))
